@@ -146,8 +146,11 @@ def gen_history(rng):
     nops = int(rng.integers(1, 14))
     fs = sorted(f)
     for _ in range(nops):
-        k = rng.choice(["set_mask", "low_pass", "high_pass", "subtract", "roundtrip", "roundtrip_twice", "duplicate", "average", "set_mask"])
-        if k == "set_mask":
+        k = rng.choice(["set_mask", "low_pass", "high_pass", "subtract", "roundtrip", "roundtrip_twice", "duplicate", "average", "set_mask",
+                        "refused"])
+        if k == "refused":
+            ops.append(_gen_refused(rng, n))
+        elif k == "set_mask":
             ops.append({"op": "set_mask", "mask": _mk(_rand_mask(rng, n)), "np": bool(rng.random() < 0.25)})
         elif k in ("low_pass", "high_pass"):
             if rng.random() < 0.5:
@@ -170,6 +173,23 @@ def gen_history(rng):
             s = [[float(rng.normal()), float(rng.normal())] for _ in range(n)]
             ops.append({"op": "average", "s": s})
     return ops
+
+
+def _gen_refused(rng, n):
+    """A call with an argument the documentation excludes.  If the library refuses it (raises), the data set must be exactly what it
+    was; if the library accepts it, nothing is demanded and the history ends there."""
+    how = str(rng.choice(["mask-bad-value", "mask-bad-key", "mask-not-dict", "subtract-wrong-length", "subtract-not-complex", "cutoff-not-number"],
+                         p=[0.3, 0.3, 0.05, 0.15, 0.1, 0.1]))
+    op = {"op": "refused", "how": how}
+    if how.startswith("mask-bad"):
+        # valid entries that flip flags come first (dicts keep insertion order), the offending entry is at a random later position
+        valid = [[int(i), bool(rng.random() < 0.5)] for i in rng.permutation(n)[: int(rng.integers(1, n + 1))]]
+        pos = int(rng.integers(0, len(valid) + 1)) if rng.random() < 0.3 else len(valid)
+        op.update(valid=valid, pos=pos, bad=str(rng.choice(["none", "str", "float", "int"] if how == "mask-bad-value" else ["str", "float", "none"])),
+                  at=int(rng.integers(0, n)))
+    elif how == "subtract-wrong-length":
+        op["len"] = int(n + rng.integers(1, 4)) if (n < 3 or rng.random() < 0.5) else int(rng.integers(2, n))
+    return op
 
 
 def _mk(m):
@@ -291,6 +311,37 @@ def run_history(hist):
                 if caller != md:
                     bad(step, "C05/caller-mask-altered", f"set_mask altered its argument {md} -> {caller}")
                 m.set_mask(md)
+            elif k == "refused":
+                how = op["how"]
+                try:
+                    if how.startswith("mask-bad"):
+                        items = [(int(a), bool(b)) for a, b in op["valid"]]
+                        if how == "mask-bad-value":
+                            bad_item = (op["at"], {"none": None, "str": "yes", "float": 1.0, "int": 2}[op["bad"]])
+                        else:
+                            bad_item = ({"str": str(op["at"]), "float": op["at"] + 0.5, "none": None}[op["bad"]], True)
+                        items = [it for it in items if it[0] != bad_item[0]]
+                        items.insert(min(op["pos"], len(items)), bad_item)
+                        ds.set_mask(dict(items))
+                    elif how == "mask-not-dict":
+                        ds.set_mask([True] * m.n())
+                    elif how == "subtract-wrong-length":
+                        ds.subtract_impedances(np.array([complex(1.0, -1.0)] * op["len"]))
+                    elif how == "subtract-not-complex":
+                        ds.subtract_impedances("1+1j")
+                    else:
+                        (ds.low_pass if step % 2 else ds.high_pass)("10")
+                except Exception:
+                    stats["refused:" + how] = stats.get("refused:" + how, 0) + 1
+                    before = len(viol)
+                    _cmp_views(ds, m, step, viol, hist)
+                    for v in viol[before:]:
+                        v["key"] = f"C05/refused-call-changed-state:{how}"
+                    if viol:
+                        break
+                    continue
+                stats["invalid-accepted:" + how] = stats.get("invalid-accepted:" + how, 0) + 1
+                break  # accepted: not judged, and the model cannot follow
             elif k == "low_pass":
                 ds.low_pass(op["cutoff"])
                 m.low_pass(op["cutoff"])
